@@ -96,8 +96,9 @@ def build(case, log, ckdir):
     npop = case["pop"]
     if loop in ("off", "on", "offline"):
         img = bool(case.get("image"))
-        env = (E.CountVecEnv(log, ne, case["ep_len"], act, image=img) if ne > 0
-               else E.CountEnv(log, case["ep_len"], act, image=img))
+        dob = bool(case.get("dictobs"))
+        env = (E.CountVecEnv(log, ne, case["ep_len"], act, image=img, dictobs=dob) if ne > 0
+               else E.CountEnv(log, case["ep_len"], act, image=img, dictobs=dob))
         ospace = env.single_observation_space if ne > 0 else env.observation_space
         aspace = env.single_action_space if ne > 0 else env.action_space
         net = dict(NET)
@@ -106,6 +107,8 @@ def build(case, log, ckdir):
             net = {"encoder_config": {"channel_size": [3], "kernel_size": [3], "stride_size": [1]},
                    "head_config": {"hidden_size": [16]}}
             kw["swap_channels"] = True
+        if dob:
+            net = None           # default multi-input encoder
         pop = create_population(algo, ospace, aspace, net, hp, hp_config=hpc, population_size=npop,
                                 num_envs=max(ne, 1))
     elif loop == "bandit":
